@@ -35,7 +35,7 @@ _FLAGS = {
     "plain": "-O1 -g -w",
     "asan": "-O1 -g -w -fsanitize=address,undefined -fno-sanitize-recover=undefined -fno-omit-frame-pointer",
     "tsan": "-O1 -g -w -fsanitize=thread",
-    "fault": "-O1 -g -w",
+    "fault": "-O1 -g -w -fsanitize=address,undefined -fno-sanitize-recover=undefined -fno-omit-frame-pointer",
 }
 
 
